@@ -30,6 +30,38 @@ def header_order(chk, prog, rid, cfg=None):
                        f"several Set-Cookie) may be reordered", where=b.where(blk), cfg=cfg)
     chk.call_sites += n
     chk.ob(rid, "header-serialisation", f"scanned {len(reach)} bodies", True, cfg=cfg)
+    # the sort of Headers::iter orders by name only: a comparator that also looks at the value reorders same-named fields
+    st = prog.structs.get("humphrey::http::headers::Header", {}).get("fields", [])
+    vi = next((i for i, x in enumerate(st) if x["name"] == "value"), None)
+    it = prog.bodies.get("humphrey::http::headers::Headers::iter")
+    if it is not None and vi is not None:
+        sorts = [blk for blk, t in it.calls() if core.call_matches(t, r"::(sort_by|sort_by_key|sort_by_cached_key|sort|binary_search_by|binary_search_by_key)$")]
+        def walk(x, out):
+            if isinstance(x, list):
+                if len(x) == 3 and x[0] == "f" and x[1] == vi and x[2] == st[vi]["ty"]:
+                    out.append(x)
+                for y in x:
+                    walk(y, out)
+            elif isinstance(x, dict):
+                for y in x.values():
+                    walk(y, out)
+        def closures_rec(path, acc):
+            for c in prog.closures_of(path):
+                if c.path not in acc:
+                    acc[c.path] = c
+                    closures_rec(c.path, acc)
+            return acc
+        cls = closures_rec(it.path, {})
+        for cp, c in sorted(cls.items()):
+            hits = []
+            walk(c.blocks, hits)
+            chk.ob(rid, cp, "the ordering closure of Headers::iter does not look at Header.value", not hits,
+                   "the header value takes part in the sort order: fields with the same name are emitted in value order instead of arrival order "
+                   "(get / get_all / the first Cookie or X-Forwarded-For field change after a relay)", cfg=cfg)
+        if sorts:
+            plain = [blk for blk in sorts if core.call_matches(it.term(blk), r"::sort$")]
+            chk.ob(rid, it.path, "Headers::iter sorts with an explicit name-only key (no derived whole-Header ordering)", not plain,
+                   "`sort()` uses Header's own ordering, which includes the value", cfg=cfg)
     # storage order: Headers::add / push only push
     for fn in ("humphrey::http::headers::Headers::add", "humphrey::http::headers::Headers::push"):
         b = prog.bodies.get(fn)
